@@ -34,6 +34,10 @@ def plan(tier):
         if q and perm not in (0, 3):
             continue
         I.append(inst(f"eigen-complex-pair[eigenvalue-order={perm}]", 'harness.c16', 'eigen_complex', {}, opts=dict(fix={"eig_perm": perm}), weight=60, timeout_s=1500))
+    for (a, b) in ([(0, 1), (1, 0)] if q else [(0, 0), (0, 1), (1, 0), (1, 1)]):
+        for r in ('none', 'shared'):
+            I.append(inst(f"eigen-composite[request={r},eigenvalue-orders=({a},{b})]", 'harness.c16', 'eigen_composite', dict(d=2, request=r),
+                          opts=dict(fix={"eig_perm0": a, "eig_perm1": b}, max_vars=64), weight=10, timeout_s=900))
     for d in ([2] if q else [2, 3]):
         for w in ('eigenvector', 'any', 'missing', 'diagonalize'):
             I.append(inst(f"eigen[{w},d={d}]", 'harness.c16', 'eigen', dict(d=d, which=w), weight=10 * d * d, timeout_s=1500, opts=dict(max_paths=2048)))
@@ -46,7 +50,7 @@ def plan(tier):
                      "Subspace.intersect's SVD null-space call is a nondeterministic stub (arbitrary basis K0*T, T fresh invertible)"),
         bounds=dict(dimensions=dims, complex_dimensions="<=2 (quick) / <=3 (thorough)", charts="all", layouts="row and column vectors; composite shape (2,)",
                     intersect="RP^2 line/line elementwise + pairwise (quick); RP^3 plane/plane, line/plane (thorough)"),
-        outside=["hyperplane_coordinate_transform / find_definite_isometry (np.linalg.qr has no model)", "eigenvector / diagonalize for composite transformations (the eigen stub is unit-only; unit transformations with simple spectrum are covered)",
+        outside=["hyperplane_coordinate_transform / find_definite_isometry (np.linalg.qr has no model)", "eigenvector / diagonalize for composites beyond two 2x2 units",
                  "automatic chart selection (chart_index=None)"],
         assumptions=["rescaling factor != 0", "spanning sets linearly independent and subspaces transverse (documented precondition of intersect)"],
     )
